@@ -28,8 +28,9 @@ RULES = {
     "R6": "compute loop: add_value(i, j, d(pred_i, pred_j)) on the same data; CLI loads theta files in argument order",
     "R7": "persistence: writer/reader agreement incl. [:current_index] slices; current_index = number of stored values",
     "R8": "growable storage: the growth step used by _expand_storage is never a caller-supplied 0 (empty chunks are loaded and combined with capacity 0)",
+    "R9": "the sample container the code indexes (ThetaHolder.add_theta / get_theta) refuses out-of-range indices and returns the i-th added sample (C10.R3 run here)",
 }
-MIN = {"R1": 7, "R2": 2, "R3": 4, "R4": 3, "R5": 2, "R6": 3, "R7": 4, "R8": 1}
+MIN = {"R1": 7, "R2": 2, "R3": 4, "R4": 3, "R5": 2, "R6": 3, "R7": 4, "R8": 1, "R9": 3}
 TRUSTED = ["integer division identity N = C*(N//C) + N%C with 0 <= N%C < C", "itertools.islice / deque consume semantics"]
 TECHNIQUE = "symbolic summarisation of straight-line integer code into polynomial normal forms; guard dominance; writer/reader agreement; three-valued evaluation of path conditions under a boundary hypothesis"
 LEVEL_TEXT = ("Disjointness, coverage and balance of the chunks are exactly the affine identities discharged here, valid for "
@@ -810,7 +811,12 @@ def r_bsearch(ctx):
         ctx.ok("R4", "binary-search::none", "no np.searchsorted in the anchored modules")
 
 
-RULE_FUNCS = [r1, r2, r3, r4, r5, r6, r7, r8, r_bsearch]
+def r_holder(ctx):
+    from . import C10
+    ctx.borrow(C10.r3, "R9")
+
+
+RULE_FUNCS = [r1, r2, r3, r4, r5, r6, r7, r8, r_bsearch, r_holder]
 
 
 def run(ctx):
